@@ -4,6 +4,7 @@ package main
 
 import (
 	"fmt"
+	"go/types"
 	"os"
 	"sort"
 
@@ -89,6 +90,8 @@ type Ctx struct {
 	harness    string
 	reachedEnd bool
 	hchoices   []int
+	strCache   map[string]Str
+	zeroCache  map[types.Type]Value
 	cross      []*Solver
 	crossEvery []int
 	crossN     int
